@@ -319,13 +319,13 @@ def mode_fn(name, k, mt, mode, out="out"):
                      post=(rn(k.get("post_proof", "")) + "\n  Some(())"))
 
 
-def add_units(plan, prop, table, path, what, atomic=False, out="out"):
+def add_units(plan, prop, table, path, what, atomic=False, out="out", only_modes=None):
     """one Verus unit per kernel (a kernel whose shape drifted only loses its own obligations)"""
     import vlib
     text = vlib.read_repo(path)
     model = model_text()
     for name, k in table.items():
-        modes = modes_of(k, atomic)
+        modes = [m for m in modes_of(k, atomic) if only_modes is None or m in only_modes]
         obs = {m: plan.ob("%s.verus.%s.%s" % (prop, name, m), "verus", "proved", functions=["%s! (%s)" % (name, k.get("structs", ""))],
                           what=what[m] % (name + "!", k.get("structs", ""))) for m in modes}
         try:
